@@ -46,7 +46,8 @@ impl<KT: DbMapKeyType> FileDbXxxInner<KT> {
             key_file,
             val_file,
             htx_file,
-            dirty: false,
+            // the files may just have been created: their headers are buffered.
+            dirty: true,
             _phantom: std::marker::PhantomData,
         })
     }
@@ -243,6 +244,7 @@ impl<KT: DbMapKeyType> DbXxxObjectSafe<KT> for FileDbXxxInner<KT> {
     fn put_kt(&mut self, key_kt: &KT, value: &[u8]) -> Result<()> {
         let hash = HashValue::new(key_kt.hash_value());
         let opt = self.find_in_hash_buckets_kt(hash, key_kt)?;
+        self.dirty = true;
         if let Some((key_offset, _prev_key_offset)) = opt {
             let new_key_offset = self.store_value_on_insert(key_offset, value)?;
             if key_offset != new_key_offset {
@@ -267,6 +269,7 @@ impl<KT: DbMapKeyType> DbXxxObjectSafe<KT> for FileDbXxxInner<KT> {
         let hash = HashValue::new(key_kt.hash_value());
         let opt = self.find_in_hash_buckets_kt(hash, key_kt)?;
         if let Some((key_offset, _prev_key_offset)) = opt {
+            self.dirty = true;
             let key_piece = self.key_file.read_piece(key_offset)?;
             let value = self
                 .val_file
